@@ -46,7 +46,8 @@ Proof. exact step_op_idle. Qed.
 Print Assumptions C07_rasteriser_idle_after_every_call_partial.
 
 (* (5) copy_surface / blend_surface / blend_surface_with_alpha (src/draw_target.rs:1002-1026): source rectangles and
-   destinations far outside either surface (within +-2^29) never index out of bounds nor overflow *)
+   destinations anywhere (any integers: inside, far outside either surface, at the ends of the i32 range) never index out
+   of bounds nor overflow *)
 Theorem C07_surface_ops_total_partial :
   forall (gr : Z -> Z -> result Z) (g : Z -> Z -> Z), (forall s d, gr s d = Ok (g s d)) ->
   forall dw dh dbuf sw sh sbuf sr dx dy,
@@ -98,8 +99,8 @@ Proof. exact composite_total_separable. Qed.
 Print Assumptions C07_composite_total.
 
 (* (10) every one of the 15 operations, inside its documented preconditions (op_in_range: premultiplied sources, data
-   lengths matching sizes, pops matching pushes, and the three i32 sums x+w / x+mw / surface-call coordinates within
-   range), returns Ok and keeps the target well formed, or raises one of the two dependency errors - PROVIDED the
+   lengths matching sizes, pops matching pushes - no condition at all on positions, rectangles, offsets or any other
+   number: every i32 / f32 value is allowed), returns Ok and keeps the target well formed, or raises one of the two dependency errors - PROVIDED the
    rasteriser run it makes (if any) returns (op_raster_ok; discharged for straight edges by (3)).  This is the _partial
    part: rasterize for curve edges is not yet proved total. *)
 Theorem C07_every_operation_total_partial : forall st o, dt_wf st -> op_in_range st o -> op_raster_ok st o ->
